@@ -330,3 +330,5 @@ func mapVal(m *types.Map) string {
 
 const mapLen = "ML"
 const setHeap = "SET"
+const bigIHeap = "BIGI"
+const bigFHeap = "BIGF"
